@@ -40,7 +40,7 @@ prop("C16", "exploration",
      "Trusted: bytes.Compare; my reading of 'well-formed region name' (table over the legal alphabet, no comma "
      "in the id suffix).",
      [
-         {"test": "TestC16_Generated", "quick": {"checks": 150000, "timeout": 120},
+         {"test": "TestC16_Generated", "quick": {"checks": 150000, "shards": 4, "timeout": 120},
           "thorough": {"checks": 1500000, "shards": 16, "timeout": 900}},
          {"test": "TestC16_Exhaustive", "quick": {"checks": 1, "timeout": 60},
           "thorough": {"checks": 1, "timeout": 60}},
@@ -57,11 +57,11 @@ prop("C08", "exploration",
      "Trusted: the brute-force model; equal-id overlaps are only held to the invariant (winner unspecified); "
      "removals are issued only for objects that were accepted into the cache, as the client's callers do.",
      [
-         {"test": "TestC08_StateMachine", "quick": {"checks": 20000, "timeout": 200},
+         {"test": "TestC08_StateMachine", "quick": {"checks": 20000, "shards": 4, "timeout": 200},
           "thorough": {"checks": 300000, "shards": 16, "timeout": 1200}},
          {"test": "TestC08_Exhaustive", "quick": {"checks": 1, "timeout": 120},
           "thorough": {"checks": 1, "timeout": 900}},
-         {"test": "TestC08_Concurrent", "quick": {"checks": 4000, "timeout": 300},
+         {"test": "TestC08_Concurrent", "quick": {"checks": 4000, "shards": 4, "timeout": 300},
           "thorough": {"checks": 40000, "shards": 8, "timeout": 2400}},
      ],
      ["removals only name regions that were accepted into the cache at some point"])
@@ -73,7 +73,7 @@ prop("C10", "exploration",
      "decoder with trailing data, protobuf form vs cellblock form). Sampling, not exhaustive.",
      "Trusted: the independent decoder in harness/wire, protobuf-go, the DeleteType<->KeyValue type table of HBase.",
      [
-         {"test": "TestC10_Mutations", "quick": {"checks": 60000, "timeout": 200},
+         {"test": "TestC10_Mutations", "quick": {"checks": 60000, "shards": 4, "timeout": 200},
           "thorough": {"checks": 600000, "shards": 16, "timeout": 1500}},
          {"fuzz": "FuzzC10", "thorough": {"fuzztime": "90s", "workers": 8, "timeout": 400}},
      ],
@@ -87,7 +87,7 @@ prop("C15", "exploration",
      "Trusted: golang/snappy for chunk payloads on both sides (framing is independent); streams declaring a block "
      "> 64 MiB are skipped (resource exhaustion is outside the statement).",
      [
-         {"test": "TestC15_Compression", "quick": {"checks": 8000, "timeout": 200},
+         {"test": "TestC15_Compression", "quick": {"checks": 8000, "shards": 4, "timeout": 200},
           "thorough": {"checks": 80000, "shards": 16, "timeout": 1500}},
          {"test": "TestC15_ClientRoundTrip", "quick": {"checks": 1500, "shards": 4, "timeout": 300},
           "thorough": {"checks": 10000, "shards": 16, "timeout": 1500}},
@@ -108,9 +108,9 @@ prop("C06", "exploration",
      "more_results_in_region / more_results semantics, partial flags). Filters and server-side limits are outside "
      "the domain; start==stop ranges are not generated (servers read them as point gets).",
      [
-         {"test": "TestC06_Scanner", "quick": {"checks": 150000, "timeout": 300},
+         {"test": "TestC06_Scanner", "quick": {"checks": 150000, "shards": 4, "timeout": 300},
           "thorough": {"checks": 2000000, "shards": 16, "timeout": 2400}},
-         {"test": "TestC06_ScanWire", "quick": {"checks": 4000, "timeout": 300},
+         {"test": "TestC06_ScanWire", "quick": {"checks": 4000, "shards": 4, "timeout": 300},
           "thorough": {"checks": 40000, "shards": 16, "timeout": 2400}},
      ],
      ["row keys and region boundaries contain no run of eight 0xff (documented approximation)",
@@ -125,9 +125,9 @@ prop("C14", "fault_enumeration",
      "Trusted: the model server; cancellation points are between Next calls at this level (held requests are covered "
      "by the wire-level check).",
      [
-         {"test": "TestC14_Scanner", "quick": {"checks": 100000, "timeout": 300},
+         {"test": "TestC14_Scanner", "quick": {"checks": 100000, "shards": 4, "timeout": 300},
           "thorough": {"checks": 1500000, "shards": 16, "timeout": 2400}},
-         {"test": "TestC14_ScanWire", "quick": {"checks": 4000, "timeout": 300},
+         {"test": "TestC14_ScanWire", "quick": {"checks": 4000, "shards": 4, "timeout": 300},
           "thorough": {"checks": 40000, "shards": 16, "timeout": 2400}},
      ],
      ["injected RPC errors are non-retryable and hit only non-close requests (server state stays knowable)"])
@@ -141,7 +141,7 @@ prop("C02", "exploration",
      "Trusted: the simulated cluster and the independent wire codec. Interleavings inside the client are sampled by the "
      "Go scheduler, not enumerated.",
      [
-         {"test": "TestC02_OwnResponse", "quick": {"checks": 4000, "timeout": 300},
+         {"test": "TestC02_OwnResponse", "quick": {"checks": 4000, "shards": 4, "timeout": 300},
           "thorough": {"checks": 40000, "shards": 16, "timeout": 2400}},
          {"test": "TestC02_OwnResponse", "tag": "race", "thorough": {"checks": 3000, "shards": 4, "timeout": 3000, "race": True}},
      ],
@@ -154,12 +154,12 @@ prop("C05", "exploration",
      "specifications, for one or many concurrent senders, with and without snappy.",
      "Trusted: harness/wire (frame, KeyValue, block stream decoders), protobuf-go.",
      [
-         {"test": "TestC05_WireContent", "quick": {"checks": 5000, "timeout": 300},
+         {"test": "TestC05_WireContent", "quick": {"checks": 5000, "shards": 4, "timeout": 300},
           "thorough": {"checks": 60000, "shards": 16, "timeout": 2400}},
-         {"test": "TestC05_ConcurrentSenders", "quick": {"checks": 4000, "timeout": 300},
+         {"test": "TestC05_ConcurrentSenders", "quick": {"checks": 4000, "shards": 4, "timeout": 300},
           "thorough": {"checks": 40000, "shards": 16, "timeout": 2400}},
          {"test": "TestC05_ConcurrentSenders", "tag": "race", "thorough": {"checks": 4000, "shards": 4, "timeout": 3000, "race": True}},
-         {"test": "TestC05_TCP", "quick": {"checks": 300, "timeout": 300},
+         {"test": "TestC05_TCP", "quick": {"checks": 300, "shards": 4, "timeout": 300},
           "thorough": {"checks": 3000, "shards": 8, "timeout": 1200}},
      ],
      [])
@@ -173,7 +173,7 @@ prop("C07", "exploration",
      "Trusted: the simulated cluster; which success was 'delivered' is taken from the servers' log (not asserted when "
      "the batch was cancelled).",
      [
-         {"test": "TestC07_BatchResults", "quick": {"checks": 5000, "timeout": 300},
+         {"test": "TestC07_BatchResults", "quick": {"checks": 5000, "shards": 4, "timeout": 300},
           "thorough": {"checks": 50000, "shards": 16, "timeout": 2400}},
          {"test": "TestC07_BatchResults", "tag": "race", "thorough": {"checks": 4000, "shards": 4, "timeout": 3000, "race": True}},
      ],
@@ -187,7 +187,7 @@ prop("C12", "exploration",
      "Trusted: the simulated cluster; faults are injected only before execution (never executed-then-lost, which would "
      "make re-execution legitimate).",
      [
-         {"test": "TestC12_BatchExecution", "quick": {"checks": 5000, "timeout": 300},
+         {"test": "TestC12_BatchExecution", "quick": {"checks": 5000, "shards": 4, "timeout": 300},
           "thorough": {"checks": 50000, "shards": 16, "timeout": 2400}},
          {"test": "TestC12_BatchExecution", "tag": "race", "thorough": {"checks": 4000, "shards": 4, "timeout": 3000, "race": True}},
      ],
@@ -203,9 +203,9 @@ prop("C13", "fault_enumeration",
      "Trusted: synctest quiescence as the definition of 'still blocked'; the state confirmation through the simulated "
      "cluster. An unbatched call blocked inside net.Conn.Write cannot observe its context and is not generated.",
      [
-         {"test": "TestC13_Cancellation", "quick": {"checks": 6000, "timeout": 300},
+         {"test": "TestC13_Cancellation", "quick": {"checks": 6000, "shards": 4, "timeout": 300},
           "thorough": {"checks": 60000, "shards": 16, "timeout": 2400}},
-         {"test": "TestC13_ScanOpenScanner", "quick": {"checks": 2000, "timeout": 300},
+         {"test": "TestC13_ScanOpenScanner", "quick": {"checks": 2000, "shards": 4, "timeout": 300},
           "thorough": {"checks": 20000, "shards": 8, "timeout": 2400}},
      ],
      ["'short bounded delay' is read as 100 ms of virtual time after the context ended",
@@ -220,7 +220,7 @@ prop("C18", "exploration",
      "failure instant.",
      "Trusted: memconn's deadline semantics (mirror net.Conn), synctest virtual time.",
      [
-         {"test": "TestC18_ReadDeadline", "quick": {"checks": 6000, "timeout": 300},
+         {"test": "TestC18_ReadDeadline", "quick": {"checks": 6000, "shards": 4, "timeout": 300},
           "thorough": {"checks": 80000, "shards": 16, "timeout": 2400}},
          {"test": "TestC18_ReadDeadline", "tag": "race", "thorough": {"checks": 3000, "shards": 4, "timeout": 3000, "race": True}},
      ],
@@ -236,9 +236,9 @@ prop("C03", "fault_enumeration",
      "Trusted: memconn fault injection; goroutine interleavings between the failing paths are sampled (2 repetitions per "
      "position), not enumerated.",
      [
-         {"test": "TestC03_SenderRacesFailure", "quick": {"checks": 600, "timeout": 300},
+         {"test": "TestC03_SenderRacesFailure", "quick": {"checks": 600, "shards": 4, "timeout": 300},
           "thorough": {"checks": 6000, "shards": 8, "timeout": 1500}},
-         {"test": "TestC03_ConnectionFailure", "quick": {"checks": 1500, "timeout": 300},
+         {"test": "TestC03_ConnectionFailure", "quick": {"checks": 1500, "shards": 4, "timeout": 300},
           "thorough": {"checks": 15000, "shards": 16, "timeout": 2400}},
          {"test": "TestC03_ConnectionFailure", "tag": "race", "thorough": {"checks": 600, "shards": 4, "timeout": 3000, "race": True}},
      ],
@@ -256,7 +256,7 @@ prop("C11", "exploration",
      "caller would. Inputs declaring a compressed block > 64 MiB are skipped and counted (resource exhaustion is "
      "outside the statement).",
      [
-         {"test": "TestC11_ClientDecoders", "quick": {"checks": 3000, "timeout": 300},
+         {"test": "TestC11_ClientDecoders", "quick": {"checks": 3000, "shards": 4, "timeout": 300},
           "thorough": {"checks": 100000, "shards": 16, "timeout": 1500}},
          {"test": "TestC11_Malformed", "quick": {"checks": 8000, "shards": 4, "timeout": 400},
           "thorough": {"checks": 100000, "shards": 16, "timeout": 3000}},
@@ -276,7 +276,7 @@ prop("C19", "exploration",
      "left. Interleavings inside the client are sampled. A caller inside a retry back-off sleep is given until the end "
      "of that sleep.",
      [
-         {"test": "TestC19_Close", "quick": {"checks": 5000, "timeout": 300},
+         {"test": "TestC19_Close", "quick": {"checks": 5000, "shards": 4, "timeout": 300},
           "thorough": {"checks": 50000, "shards": 16, "timeout": 2400}},
          {"test": "TestC19_Close", "tag": "race", "thorough": {"checks": 4000, "shards": 4, "timeout": 3000, "race": True}},
      ],
@@ -292,10 +292,10 @@ prop("C04", "exploration",
      "unchanged, unretried; each exception class triggers the reaction the property names.",
      "Trusted: the simulated cluster (my reading of HBase's reactions), virtual horizon of 10 minutes as 'eventually'.",
      [
-         {"test": "TestC04_FaultSurvival", "quick": {"checks": 5000, "timeout": 300},
+         {"test": "TestC04_FaultSurvival", "quick": {"checks": 5000, "shards": 4, "timeout": 300},
           "thorough": {"checks": 50000, "shards": 16, "timeout": 2400}},
          {"test": "TestC04_FaultSurvival", "tag": "race", "thorough": {"checks": 3000, "shards": 4, "timeout": 3000, "race": True}},
-         {"test": "TestC04_Classification", "quick": {"checks": 1500, "timeout": 120},
+         {"test": "TestC04_Classification", "quick": {"checks": 1500, "shards": 4, "timeout": 120},
           "thorough": {"checks": 6000, "shards": 2, "timeout": 600}},
      ],
      ["fault sequences are finite (<= 8 events) and the cluster is stable afterwards",
@@ -309,7 +309,7 @@ prop("C09", "exploration",
      "complete after stabilisation, no region left unavailable.",
      "Trusted: the race detector, synctest deadlock detection. This is the weakest claim of the set.",
      [
-         {"test": "TestC09_ConcurrentFailures", "quick": {"checks": 2500, "timeout": 300},
+         {"test": "TestC09_ConcurrentFailures", "quick": {"checks": 2500, "shards": 4, "timeout": 300},
           "thorough": {"checks": 6000, "shards": 16, "timeout": 3000, "race": True}},
      ],
      ["interleavings inside the client are sampled, not enumerated"])
@@ -327,7 +327,7 @@ prop("C20", "exploration",
          {"test": "TestC20_ClientCacheConcurrent", "quick": {"checks": 400, "shards": 4, "timeout": 300},
           "thorough": {"checks": 4000, "shards": 16, "timeout": 1500}},
          {"test": "TestC20_ClientCacheConcurrent", "tag": "race", "thorough": {"checks": 300, "shards": 4, "timeout": 1500, "race": True}},
-         {"test": "TestC20_OneConnection", "quick": {"checks": 4000, "timeout": 300},
+         {"test": "TestC20_OneConnection", "quick": {"checks": 4000, "shards": 4, "timeout": 300},
           "thorough": {"checks": 40000, "shards": 16, "timeout": 2400}},
          {"test": "TestC20_OneConnection", "tag": "race", "thorough": {"checks": 2500, "shards": 4, "timeout": 3000, "race": True}},
      ],
@@ -341,9 +341,9 @@ prop("C17", "exploration",
      "space its attempts by at least the schedule (lower bounds only, as the property says).",
      "Trusted: synctest virtual time; timestamps taken by the simulated cluster.",
      [
-         {"test": "TestC17_Formula", "quick": {"checks": 30000, "timeout": 120},
+         {"test": "TestC17_Formula", "quick": {"checks": 30000, "shards": 4, "timeout": 120},
           "thorough": {"checks": 300000, "shards": 4, "timeout": 900}},
-         {"test": "TestC17_RetrySchedule", "quick": {"checks": 3000, "timeout": 300},
+         {"test": "TestC17_RetrySchedule", "quick": {"checks": 3000, "shards": 4, "timeout": 300},
           "thorough": {"checks": 30000, "shards": 16, "timeout": 2400}},
      ],
      ["lower bounds on gaps only"])
@@ -358,9 +358,9 @@ prop("C01", "exploration",
      "Trusted: brute-force containment, the simulated cluster's layout model and meta comparator (written from HBase's "
      "MetaCellComparator).",
      [
-         {"test": "TestC01_CacheLookup", "quick": {"checks": 3000, "timeout": 200},
+         {"test": "TestC01_CacheLookup", "quick": {"checks": 3000, "shards": 4, "timeout": 200},
           "thorough": {"checks": 40000, "shards": 16, "timeout": 1800}},
-         {"test": "TestC01_EndToEnd", "quick": {"checks": 3000, "timeout": 300},
+         {"test": "TestC01_EndToEnd", "quick": {"checks": 3000, "shards": 4, "timeout": 300},
           "thorough": {"checks": 30000, "shards": 16, "timeout": 2400}},
      ],
      ["row keys shorter than MaxInt16 - len(table) - 3 bytes (longer ones are truncated by the client and rejected by HBase)"])
